@@ -16,6 +16,7 @@ import (
 	"sort"
 	"strings"
 	"testing"
+	"unsafe"
 
 	"github.com/esimov/gogu"
 	"github.com/esimov/gogu/heap"
@@ -83,9 +84,73 @@ type Case struct {
 }
 
 type args struct {
-	s []*fixture
-	m map[string]int
-	n int
+	s       []*fixture
+	m       map[string]int
+	n       int
+	spare   int
+	tracked []*tracked
+}
+
+// tracked is an outer container handed to a helper (the [][]T behind a spread variadic
+// parameter, a []map collection): sig describes its slots shallowly (which inner slice /
+// map sits where, including the spare capacity behind its length).
+type tracked struct {
+	what   string
+	sig    func() string
+	before string
+}
+
+var sentinelSlice = []int{sentinel, sentinel - 1}
+var sentinelMap = map[string]int{"sentinel": sentinel}
+
+// outer builds the [][]int for a spread variadic parameter from the slice arguments
+// from..from+k-1, with spare capacity filled with a sentinel slice, and tracks it.
+func (a *args) outer(inner ...[]int) [][]int {
+	o := make([][]int, len(inner), len(inner)+a.spare)
+	copy(o, inner)
+	full := o[:cap(o)]
+	for i := len(inner); i < len(full); i++ {
+		full[i] = sentinelSlice
+	}
+	t := &tracked{what: "slice of slices passed as spread variadic argument", sig: func() string {
+		var b strings.Builder
+		for _, x := range full {
+			fmt.Fprintf(&b, "[%p len=%d cap=%d]", unsafe.SliceData(x), len(x), cap(x))
+		}
+		return b.String()
+	}}
+	t.before = t.sig()
+	a.tracked = append(a.tracked, t)
+	return o
+}
+
+// maps builds a tracked []map collection.
+func (a *args) maps(ms ...map[string]int) []map[string]int {
+	o := make([]map[string]int, len(ms), len(ms)+a.spare)
+	copy(o, ms)
+	full := o[:cap(o)]
+	for i := len(ms); i < len(full); i++ {
+		full[i] = sentinelMap
+	}
+	t := &tracked{what: "slice of maps argument", sig: func() string {
+		var b strings.Builder
+		for _, x := range full {
+			fmt.Fprintf(&b, "[%x len=%d]", reflect.ValueOf(x).Pointer(), len(x))
+		}
+		return b.String()
+	}}
+	t.before = t.sig()
+	a.tracked = append(a.tracked, t)
+	return o
+}
+
+// m2 is a second map for collections (derived from the map argument, never handed out twice).
+func (a *args) m2() map[string]int {
+	o := map[string]int{"a": a.n, "zz": 1}
+	for k, v := range a.m {
+		o[k+"'"] = v + 1
+	}
+	return o
 }
 
 func (a *args) sl(i int) []int {
@@ -133,6 +198,23 @@ var adapters = []adapter{
 	{"DuplicateWithIndex", -1, 1, func(a *args) any { return gogu.DuplicateWithIndex(a.sl(0)) }},
 	{"Merge", -1, 3, func(a *args) any { return gogu.Merge(a.sl(0), a.sl(1), a.sl(2)) }},
 	{"Merge1", -1, 2, func(a *args) any { return gogu.Merge(a.sl(0), a.sl(1)) }},
+	{"Merge...", -1, 3, func(a *args) any { return gogu.Merge(a.sl(0), a.outer(a.sl(1), a.sl(2))...) }},
+	{"Intersection...", -1, 3, func(a *args) any { return gogu.Intersection(a.outer(a.sl(0), a.sl(1), a.sl(2))...) }},
+	{"IntersectionBy...", -1, 3, func(a *args) any { return gogu.IntersectionBy(mod2, a.outer(a.sl(0), a.sl(1), a.sl(2))...) }},
+	{"Zip...", -1, 3, func(a *args) any {
+		x, y, z := a.sl(0), a.sl(1), a.sl(2)
+		if len(x) < 3 || len(y) < 3 || len(z) < 3 {
+			return nil
+		}
+		return gogu.Zip(a.outer(x[:3], y[:3], z[:3])...)
+	}},
+	{"Unzip...", -1, 3, func(a *args) any {
+		x, y, z := a.sl(0), a.sl(1), a.sl(2)
+		if len(x) < 3 || len(y) < 3 || len(z) < 3 {
+			return nil
+		}
+		return gogu.Unzip(a.outer(x[:3], y[:3], z[:3])...)
+	}},
 	{"Flatten", -1, 2, func(a *args) any { r, _ := gogu.Flatten[int]([]any{a.sl(0), []any{a.sl(1), 5}}); return r }},
 	{"Union", -1, 2, func(a *args) any { r, _ := gogu.Union[int]([]any{a.sl(0), a.sl(1)}); return r }},
 	{"Intersection", -1, 3, func(a *args) any { return gogu.Intersection(a.sl(0), a.sl(1), a.sl(2)) }},
@@ -202,6 +284,7 @@ var adapters = []adapter{
 		return h.Size()
 	}},
 	{"heap.Sort", 0, 1, func(a *args) any { return heap.Sort(a.sl(0), func(x, y int) bool { return x > y }) }},
+	{"heap.Sort<", 0, 1, func(a *args) any { return heap.Sort(a.sl(0), func(x, y int) bool { return x < y }) }},
 	// map helpers
 	{"Keys", -1, 0, func(a *args) any { return gogu.Keys(a.m) }},
 	{"Values", -1, 0, func(a *args) any { return gogu.Values(a.m) }},
@@ -221,16 +304,16 @@ var adapters = []adapter{
 	{"Omit", -2, 0, func(a *args) any { return gogu.Omit(a.m, "a", "c") }},
 	{"OmitBy", -2, 0, func(a *args) any { return gogu.OmitBy(a.m, func(k string, v int) bool { return veven(v) }) }},
 	{"FilterMap", -1, 0, func(a *args) any { return gogu.FilterMap(a.m, veven) }},
-	{"Pluck", -1, 0, func(a *args) any { return gogu.Pluck([]map[string]int{a.m, a.m}, "a") }},
+	{"Pluck", -1, 0, func(a *args) any { return gogu.Pluck(a.maps(a.m, a.m2(), a.m), "a") }},
 	{"PartitionMap", -1, 0, func(a *args) any {
-		return gogu.PartitionMap([]map[string]int{a.m}, func(m map[string]int) bool { return len(m) > 1 })
+		return gogu.PartitionMap(a.maps(a.m2(), a.m, map[string]int{}), func(m map[string]int) bool { return len(m) > 1 })
 	}},
-	{"FilterMapCollection", -1, 0, func(a *args) any { return gogu.FilterMapCollection([]map[string]int{a.m}, veven) }},
+	{"FilterMapCollection", -1, 0, func(a *args) any { return gogu.FilterMapCollection(a.maps(a.m2(), a.m), veven) }},
 	{"Filter2DMapCollection", -1, 0, func(a *args) any {
 		return gogu.Filter2DMapCollection([]map[string]map[string]int{{"x": a.m}}, func(m map[string]int) bool { return len(m) > 0 })
 	}},
-	{"FindMinByKey", -1, 0, func(a *args) any { v, _ := gogu.FindMinByKey([]map[string]int{a.m, a.m}, "a"); return v }},
-	{"FindMaxByKey", -1, 0, func(a *args) any { v, _ := gogu.FindMaxByKey([]map[string]int{a.m, a.m}, "a"); return v }},
+	{"FindMinByKey", -1, 0, func(a *args) any { v, _ := gogu.FindMinByKey(a.maps(a.m2(), a.m, a.m), "a"); return v }},
+	{"FindMaxByKey", -1, 0, func(a *args) any { v, _ := gogu.FindMaxByKey(a.maps(a.m, a.m2(), a.m), "a"); return v }},
 }
 
 // immutable lists exported helpers whose arguments are strings or scalars only
@@ -288,7 +371,7 @@ func cp(v reflect.Value) reflect.Value {
 }
 
 func mkArgs(c Case, ss [][]int) *args {
-	a := &args{n: c.N}
+	a := &args{n: c.N, spare: c.Spare}
 	for _, s := range ss {
 		a.s = append(a.s, newFixture(s, c.Spare))
 	}
@@ -329,11 +412,17 @@ func run(w *core.Worker, c Case) {
 		w.Violation("c16.argument-disturbed:"+ad.name, fmt.Sprintf("%s: map argument %v became %v", ad.name, mcopy, a.m))
 		return
 	}
-	// 2. an earlier result after a later non-in-place call on the same (first) argument
+	for _, t := range a.tracked {
+		if now := t.sig(); now != t.before {
+			w.Violation("c16.argument-disturbed:"+ad.name, fmt.Sprintf("%s: the %s was rearranged or overwritten: slots before %s, after %s (inner arguments %v)", ad.name, t.what, t.before, now, c.S))
+			return
+		}
+	}
+	// 2. an earlier result after a later call on the same (first) argument
 	if c.B != "" {
 		bd := find(c.B)
 		snap := deepCopy(res)
-		b := &args{n: c.N2, m: a.m}
+		b := &args{n: c.N2, m: a.m, spare: c.Spare}
 		if len(a.s) > 0 {
 			b.s = append(b.s, a.s[0])
 			for _, s := range c.S2 {
@@ -344,12 +433,18 @@ func run(w *core.Worker, c Case) {
 			w.Count("adapter_panics", 1)
 			return
 		}
+		for _, t := range b.tracked {
+			if now := t.sig(); now != t.before {
+				w.Violation("c16.argument-disturbed:"+bd.name, fmt.Sprintf("%s (second call): the %s was rearranged or overwritten", bd.name, t.what))
+				return
+			}
+		}
 		if !reflect.DeepEqual(res, snap) {
 			w.Violation("c16.earlier-result-altered:"+ad.name+"<-"+bd.name, fmt.Sprintf("result of %s%v was %v, after the later call %s(same first argument, others %v) it reads %v", ad.name, c.S, snap, bd.name, c.S2, res))
 			return
 		}
 		for i, f := range b.s {
-			if d := f.diff(false); d != "" {
+			if d := f.diff(i == bd.inPlace || (i == 0 && ad.inPlace == 0)); d != "" {
 				w.Violation("c16.argument-disturbed:"+bd.name, fmt.Sprintf("%s (second call): slice argument %d: %s", bd.name, i, d))
 				return
 			}
@@ -392,12 +487,12 @@ func exportedHelpers() []string {
 func TestProp(t *testing.T) {
 	r := core.Start(t, "C16")
 	defer r.Finish()
-	r.Rule("cases = one call of an exported helper (single) or two calls sharing the first argument (pair); every slice argument lives inside a larger backing array with sentinel values before it, in its spare capacity (0, 1 or 8 slots) and behind it; after the call the whole backing array / every map entry must be unchanged (in-place helpers: only elements inside the original length of their one argument may change); the first call's result is deep-copied and must read the same after the second call (which gets different other arguments); non-trivial = first argument has >= 2 elements; distinct by hash of the case")
+	r.Rule("cases = one call of an exported helper (single) or two calls sharing the first argument (pair); every slice argument lives inside a larger backing array with sentinel values before it, in its spare capacity (0, 1 or 8 slots) and behind it; after the call the whole backing array / every map entry must be unchanged (in-place helpers: only elements inside the original length of their one argument may change); the first call's result is deep-copied and must read the same after the second call (which gets different other arguments); the [][]T behind a spread variadic parameter and []map collections are tracked slot by slot (same inner slice/map in every slot, spare slots untouched); heap.Sort's returned slice must survive later in-place calls on the same argument; non-trivial = first argument has >= 2 elements; distinct by hash of the case")
 
 	// coverage of the adapter table against the package's exported functions
 	have := map[string]bool{}
 	for _, a := range adapters {
-		have[strings.TrimPrefix(strings.TrimSuffix(a.name, "1"), "heap.")] = true
+		have[strings.TrimPrefix(strings.TrimSuffix(strings.TrimSuffix(strings.TrimSuffix(a.name, "1"), "..."), "<"), "heap.")] = true
 	}
 	for _, n := range immutable {
 		have[n] = true
@@ -473,6 +568,23 @@ func TestProp(t *testing.T) {
 					}
 					emit(c)
 				}
+			}
+		}
+	}, run)
+
+	// heap.Sort is in place on its argument AND hands back a slice: that result must survive later
+	// in-place calls on the same argument (Reverse, Reject, heap.FromSlice, heap.Sort with the
+	// opposite comparator), which rewrite the argument's elements.
+	nIP := r.Pick(300, 3000)
+	core.Monitor(r, "args-inplace-pairs", 0, func(emit func(Case)) {
+		rng := r.Rand("c16-inplace-pairs")
+		for _, b := range []string{"Reverse", "Reject", "heap.FromSlice", "heap.Sort<", "heap.Sort"} {
+			for i := 0; i < nIP; i++ {
+				s := gen(rng, 7)
+				for j := range s { // distinct values: every rearrangement is visible
+					s[j] = s[j]*10 + j
+				}
+				emit(Case{A: "heap.Sort", B: b, Spare: []int{0, 1, 8}[i%3], N: rng.Intn(8), N2: rng.Intn(8), M: map[string]int{}, S: [][]int{s}})
 			}
 		}
 	}, run)
